@@ -12,3 +12,10 @@ LEVEL_TEXT = ('Deductive proof per function against sidecar contracts: every obl
 LEVEL_NOTE = 'Trusted: pyvc and its Python semantics, z3; LIBSPEC (numpy/scipy members pure and uninterpreted); floats as reals (A-REAL).'
 TECHNIQUE = 'contract-based deductive verification (AST -> VCs -> z3/cvc5)'
 DESIGN_REF = 'DESIGN.md section 3 / C08'
+
+
+def extra(tier, seed):
+    from pyvc.bounded import run_native
+    cases = 12 if tier == 'quick' else 200
+    return [run_native('C08:bounded:native-recomputation', 'c08_native.py', [str(cases), str(seed)],
+                       bound=f'{cases} generated raw outcomes, K in 1..4, with/without null likelihood and bootstrap, singular Hessians')]
